@@ -11,7 +11,9 @@
 (*                          model predicts to be violated (leads).            *)
 (*                          gen1: every single-cut behaviour; gen2 / gen3:    *)
 (*                          every two- / three-cut behaviour of reduced       *)
-(*                          configurations; gen1L: the 13-event stream.       *)
+(*                          configurations; gen1L: the 13-event stream;       *)
+(*                          genI: up to 6 cuts, progress and no progress       *)
+(*                          alternating (CONSTRAINT Interleaved).             *)
 EXTENDS StreamCli, Json
 
 Viol == {nm \in {"ExactlyOnceInOrder", "NoTruncatedSurfaced", "ResumeCursor", "RealResponseWithinBudget", "CleanFailure"} :
@@ -27,6 +29,17 @@ AllShapes == Shapes
 FirstOnly == {[ids |-> "all", prime |-> "first"]}
 TwoShapes == {[ids |-> "all", prime |-> "first"], [ids |-> "all", prime |-> "none"]}
 PrimedShapes == {[ids |-> "all", prime |-> "first"], [ids |-> "all", prime |-> "every"]}
+
+\* State constraint of the generation configuration "genI" (interleaved progress / no progress): long
+\* scripts in which bodies that bring a new id across alternate with bodies that bring none, so that
+\* the TOTAL number of fruitless bodies exceeds the budget while no stretch without progress does.
+\* Cuts are read errors on event boundaries (plus the server's own end of a finished POST stream).
+Progressed(i) == bodies[i].knd # "none" /\ ~NoProg(ObsOf, i)
+Interleaved ==
+  \A i \in 1..Len(bodies) :
+    /\ bodies[i].knd \in {"none", "err"} \/ bodies[i].from >= cfg.M
+    /\ i >= 2 => ~(NoProg(ObsOf, i) /\ NoProg(ObsOf, i - 1))
+    /\ i >= 2 => ~(Progressed(i) /\ Progressed(i - 1))
 
 \* reachability witnesses (each must be VIOLATED, otherwise the model is vacuous)
 NeverResumed == ~(outcome = "resp" /\ Len(recon) >= 2)
